@@ -68,6 +68,24 @@ def concat(parts):
 SPACE_RANGES = [(9, 13), (28, 32), (0x85, 0x85), (0xa0, 0xa0), (0x1680, 0x1680), (0x2000, 0x200a), (0x2028, 0x2029),
                 (0x202f, 0x202f), (0x205f, 0x205f), (0x3000, 0x3000)]
 DIGIT_RANGES = [(48, 57)]
+
+
+def _ranges(pred, limit=0x30000):
+    out, start = [], None
+    for cp in range(limit):
+        if pred(chr(cp)):
+            if start is None:
+                start = cp
+        elif start is not None:
+            out.append((start, cp - 1))
+            start = None
+    if start is not None:
+        out.append((start, limit - 1))
+    return out
+
+
+# \d of a str pattern without re.ASCII is the Unicode category Nd (z3 characters stop at U+2FFFF)
+UNICODE_DIGIT_RANGES = _ranges(lambda ch: ch.isdecimal())
 WORD_RANGES = [(48, 57), (65, 90), (95, 95), (97, 122)]
 
 
@@ -99,8 +117,7 @@ class Translation:
         if cat in (sre_c.CATEGORY_SPACE, sre_c.CATEGORY_NOT_SPACE):
             rs, neg = SPACE_RANGES, cat == sre_c.CATEGORY_NOT_SPACE
         elif cat in (sre_c.CATEGORY_DIGIT, sre_c.CATEGORY_NOT_DIGIT):
-            rs, neg = DIGIT_RANGES, cat == sre_c.CATEGORY_NOT_DIGIT
-            self.inexact.append('\\d restricted to ASCII digits')
+            rs, neg = (DIGIT_RANGES if self.flags & re.ASCII else UNICODE_DIGIT_RANGES), cat == sre_c.CATEGORY_NOT_DIGIT
         elif cat in (sre_c.CATEGORY_WORD, sre_c.CATEGORY_NOT_WORD):
             rs, neg = WORD_RANGES, cat == sre_c.CATEGORY_NOT_WORD
             self.inexact.append('\\w restricted to ASCII')
